@@ -231,7 +231,7 @@ class Prop:
     def gen_cases(self, rng, tier):
         cases = []
         al = self.gr_alphabet()
-        d = 3 if tier == 'quick' else 5
+        d = 3 if tier == 'quick' else 4
         for seq in itertools.product(al, repeat=d):
             cases.append(dict(kind='gr', ins=list(seq)))
         for _ in range(300 if tier == 'quick' else 5000):
